@@ -3,14 +3,16 @@
 
 from __future__ import annotations
 
+import asyncio
 import functools
 import inspect
 import json
-from contextlib import contextmanager
+from contextlib import asynccontextmanager, contextmanager
 from pathlib import Path
 from typing import (
     Annotated,
     Any,
+    AsyncIterator,
     Awaitable,
     Callable,
     Generic,
@@ -401,6 +403,37 @@ class ResourceManager:
         self._resolving: list[str] = []  # Track resources being resolved in order
         self._resolution_cache: dict[str, Any] = {}
         self._resolution_depth = 0
+        # The bookkeeping above describes ONE dependency resolution. Steps resolve
+        # their resources concurrently, so a resolution runs under this lock.
+        self._lock: asyncio.Lock | None = None
+        self._lock_loop: asyncio.AbstractEventLoop | None = None
+        self._owner: asyncio.Task[Any] | None = None
+
+    def _resolution_lock(self) -> asyncio.Lock:
+        loop = asyncio.get_running_loop()
+        if self._lock is None or self._lock_loop is not loop:
+            self._lock = asyncio.Lock()
+            self._lock_loop = loop
+        return self._lock
+
+    @asynccontextmanager
+    async def exclusive_resolution(self) -> AsyncIterator[None]:
+        """Run one dependency resolution at a time.
+
+        Re-entrant for the task that is already resolving (nested ``get`` calls
+        made while resolving a factory's own dependencies).
+        """
+        task = asyncio.current_task()
+        if task is not None and self._owner is task:
+            yield
+            return
+        async with self._resolution_lock():
+            self._owner = task
+            try:
+                with self.resolution_scope():
+                    yield
+            finally:
+                self._owner = None
 
     @contextmanager
     def resolution_scope(self) -> Iterator[None]:
@@ -418,10 +451,8 @@ class ResourceManager:
         self.resources.update({name: val})
 
     async def get(self, resource: ResourceDescriptor) -> Any:
-        if self._resolution_depth == 0:
-            with self.resolution_scope():
-                return await self._get(resource)
-        return await self._get(resource)
+        async with self.exclusive_resolution():
+            return await self._get(resource)
 
     async def _get(self, resource: ResourceDescriptor) -> Any:
         """Return a resource instance, honoring cache settings.
